@@ -181,19 +181,29 @@ Lemma hard_case_near_optimal_full : forall n (A : rvec -> rvec) (b p z : rvec) l
   energyR A b (raxpy p tau z) <= energyR A b s + 2 * Rabs tau * eps * Delta.
 Proof. intros n A b p z lam eps tau Delta H1 H2 H3 H4 H5 H6 H7 H8 H9 H10 H11 H12 H13 H14 s Hs Hb. eapply (hard_case_near_optimal n A b p z lam eps tau Delta); eassumption. Qed.
 
-(* ------------------------------------------------------------------ zero Hessian: the binary64 model returns NaN (finding F2b).
-   A statement about the PrimFloat instance (the one executed against the implementation); over R division by zero is total. *)
-Lemma treigen_zero_hessian_nan_binary64 :
-  let res := @treigen_solve PrimFloat.float NumF 50 [F 0 0] [[F 1 0]] [F 1 0] (F 2 0) in
-  (match fst res with TSecular _ => true | _ => false end = true) /\ fencs (snd res) = [0; 7777]%Z.
-Proof. vm_compute. split; reflexivity. Qed.
+(* ------------------------------------------------------------------ zero Hessian (finding F2b, fixed by repo commit 4d37146):
+   the binary64 model takes the early return and yields -(Delta/|b|) b, resp. the zero step when b = 0 as well.
+   Statements about the PrimFloat instance (the one executed against the implementation). *)
+Lemma treigen_zero_hessian_binary64 :
+  let I2 := [[F 1 0; F 0 0]; [F 0 0; F 1 0]] in
+  let res := @treigen_solve PrimFloat.float NumF 100 [F 0 0; F 0 0] I2 [F 3 0; F (-4) 0] (F 10 0) in
+  let res0 := @treigen_solve PrimFloat.float NumF 100 [F 0 0; F 0 0] I2 [F 0 0; F 0 0] (F 10 0) in
+  fst res = TZero /\ fencs (snd res) = fencs [F (-6) 0; F 8 0] /\ fst res0 = TZero /\ fencs (snd res0) = fencs [F 0 0; F 0 0].
+Proof. vm_compute. repeat split; reflexivity. Qed.
 
-(* ------------------------------------------------------------------ the uncapped secular `while` can stall (finding F2c): for
-   sig = (-3,-3), b = (1/2, 1/8), Delta = 2^23 the binary64 iteration reaches a value of lam whose Newton correction is below
-   its resolution while |bError| > 1e-9 -- one more pass returns the same state, so no amount of fuel terminates it. *)
+(* ------------------------------------------------------------------ the secular iteration can stall in binary64 (finding F2c, fixed
+   by repo commit 545a5c4): for sig = (-3,-3), b = (1/2, 1/8), Delta = 2^23 the iteration reaches, after ONE update, a value of lam whose
+   Newton correction is below its resolution while |bError| > 1e-9.  The uncapped `while` of the old code looped forever there; the
+   repaired loop leaves through `if lamNew == lam: break`, whatever the cap. *)
 Definition stall_sig : list PrimFloat.float := [F (-3) 0; F (-3) 0].
 Definition stall_b : list PrimFloat.float := [F 1 (-1); F 1 (-3)].
 Definition stall_Delta : PrimFloat.float := F 1 23.
-Lemma treigen_secular_stalls_binary64 :
-  fst (@treigen_solve PrimFloat.float NumF 400 stall_sig [[F 1 0; F 0 0]; [F 0 0; F 1 0]] stall_b stall_Delta) = TOutOfFuel.
+Lemma treigen_secular_stall_exit_binary64 :
+  fst (@treigen_solve PrimFloat.float NumF 100 stall_sig [[F 1 0; F 0 0]; [F 0 0; F 1 0]] stall_b stall_Delta) = TStalled 1 /\
+  fst (@treigen_solve PrimFloat.float NumF 400 stall_sig [[F 1 0; F 0 0]; [F 0 0; F 1 0]] stall_b stall_Delta) = TStalled 1 /\
+  fst (@treigen_solve PrimFloat.float NumF 2 stall_sig [[F 1 0; F 0 0]; [F 0 0; F 1 0]] stall_b stall_Delta) = TStalled 1.
+Proof. vm_compute. repeat split; reflexivity. Qed.
+(* with a cap of one pass the same input leaves through the end of the range with |bError| > 1e-9: the third exit *)
+Lemma treigen_secular_cap_exit_binary64 :
+  fst (@treigen_solve PrimFloat.float NumF 1 stall_sig [[F 1 0; F 0 0]; [F 0 0; F 1 0]] stall_b stall_Delta) = TCapped 1.
 Proof. vm_compute. reflexivity. Qed.
